@@ -204,12 +204,16 @@ class SymmetryAnalyzer(object):
         Returns:
             bool: is the object chiral.
         """
-        operations = self.get_symmetry_operations()
-        rotations = operations["rotations"]
+        # The operations reported for the original structure are limited to
+        # those compatible with the lattice of the given cell (a supercell or
+        # a sheared basis can hide improper operations), so the decision is
+        # based on the operations of the detected space group instead.
+        hall_number = self.get_hall_number()
+        rotations = spglib.get_symmetry_from_database(hall_number)["rotations"]
         chiral = True
         for rotation in rotations:
             determinant = np.linalg.det(rotation)
-            if determinant == -1.0:
+            if determinant < 0:
                 return False
 
         return chiral
